@@ -4,9 +4,9 @@ From Tongo Require Import Model.Client.
 Import ListNotations.
 
 Ltac sred :=
-  cbn [pc reg ch next status broken rq loops wire emitted delivered
+  cbn [pc reg ch next status broken rq loops wire emitted delivered since
        set_pc set_reg set_ch set_next set_status set_broken set_rq set_loops set_wire
-       set_emitted set_delivered fst snd] in *.
+       set_emitted set_delivered set_since fst snd] in *.
 
 Lemma cupd_same {A} (f : nat -> A) i v : cupd f i v i = v.
 Proof. unfold cupd. rewrite Nat.eqb_refl. reflexivity. Qed.
@@ -373,5 +373,58 @@ Section Inv.
     unfold step at 1. sred. rewrite !cupd_same.
     eexists. split; [reflexivity|]. sred. rewrite cupd_same. split; [reflexivity|].
     apply remove_id_keys.
+  Qed.
+
+  (** ---- 6. the silence rule ---- *)
+
+  Lemma since_step s l s' k : step s l = Some s' -> since s' k = tick_upd k l (since s k).
+  Proof.
+    intros Hs. step_inv Hs; sred; unfold tick_upd; try reflexivity.
+    all: unfold cupd;
+      repeat match goal with |- context [Nat.eqb ?a ?b] => destruct (Nat.eqb_spec a b) end;
+      subst; try reflexivity; congruence.
+  Qed.
+
+  Lemma since_exec ls : forall s s' k,
+    exec nconn ids s ls = Some s' -> since s' k = ticks_since k ls (since s k).
+  Proof.
+    induction ls as [|l t IH]; cbn [exec ticks_since]; intros s s' k.
+    - intros [= <-]. reflexivity.
+    - destruct (step s l) as [s1|] eqn:E; [|discriminate]. intros H.
+      rewrite (IH _ _ _ H), (since_step _ _ _ k E). reflexivity.
+  Qed.
+
+  Lemma exec_app l1 : forall l2 s,
+    exec nconn ids s (l1 ++ l2) =
+    match exec nconn ids s l1 with Some s1 => exec nconn ids s1 l2 | None => None end.
+  Proof.
+    induction l1 as [|l t IH]; cbn [app exec]; intros l2 s; [reflexivity|].
+    destruct (step s l); [apply IH|reflexivity].
+  Qed.
+
+  (** the silence rule fires only after a full period without any packet: wherever
+      a trace contains the reader's silence step for connection k, at least
+      [silence_ticks] seconds have passed since that reader last received a packet
+      (answer, pong, auth nonce, junk: any) or was started.  So a connection that
+      receives any packet at least once per period is never dropped by this rule. *)
+  Theorem silence_only_after_quiet_period l1 l2 k s :
+    exec nconn ids init_state (l1 ++ LSilence k :: l2) = Some s ->
+    silence_ticks <= ticks_since k l1 0.
+  Proof.
+    rewrite exec_app. destruct (exec nconn ids init_state l1) as [s1|] eqn:E1; [|discriminate].
+    cbn [exec]. destruct (step s1 (LSilence k)) as [s2|] eqn:E2; [|discriminate]. intros _.
+    pose proof (since_exec _ _ _ k E1) as Hs. cbn [init_state since] in Hs.
+    unfold step in E2. destruct (status s1 k); [|discriminate]. cbn [andb] in E2.
+    destruct (Nat.leb_spec silence_ticks (since s1 k)) as [Hle|]; [|discriminate].
+    rewrite <- Hs. exact Hle.
+  Qed.
+
+  (** every packet the reader processes, whatever its kind, restarts the timer *)
+  Theorem any_packet_restarts_silence_timer s k s' :
+    step s (LDeliver k) = Some s' -> since s' k = 0 /\ step s' (LSilence k) = None.
+  Proof.
+    intros Hs. pose proof (since_step _ _ _ k Hs) as H. unfold tick_upd in H.
+    rewrite Nat.eqb_refl in H. split; [exact H|].
+    unfold step. rewrite H. destruct (status s' k); reflexivity.
   Qed.
 End Inv.
